@@ -472,9 +472,10 @@ type symEnv struct {
 	// namedResults: the named results of the function being interpreted (innermost last)
 	namedResults [][]*ast.Ident
 	// zeroTrip: every loop is taken to run zero times (the evaluation is for inputs that make it so)
-	zeroTrip bool
-	onLoop   func(st *symState, loop ast.Stmt)
-	onAssign func(st *symState, lhs ast.Expr, rhs ast.Expr)
+	zeroTrip   bool
+	onLoop     func(st *symState, loop ast.Stmt)
+	onCallStmt func(st *symState, s *ast.ExprStmt) // a call that stands as a statement of its own
+	onAssign   func(st *symState, lhs ast.Expr, rhs ast.Expr)
 	// loopBody: the interpreted block is one iteration of a loop (continue/break end the path)
 	loopBody bool
 	// inlinable: calls of private helpers that are interpreted by stepping into their bodies
@@ -1257,6 +1258,9 @@ func (e *symEnv) execCore(st *symState, s ast.Stmt) []*symState {
 			if noReturnCall(e.info, call) {
 				e.finish(st, "panic", nil, s.Pos())
 				return nil
+			}
+			if e.onCallStmt != nil {
+				e.onCallStmt(st, s)
 			}
 			if e.resolve != nil {
 				e.cur = st
